@@ -378,6 +378,18 @@ void Env::violation(const char *prop, const std::string &cls, const std::string 
         }
 }
 
+void Env::recycle_corrupt(uint8_t *obj, size_t n, uint64_t salt)
+{
+        unsigned dens = (unsigned) (salt % 3); // 1/8, 1/2 or 7/8 of the chunks
+        unsigned thr = dens == 0 ? 32 : dens == 1 ? 128 : 224;
+        for (size_t off = 0, k = 0; off < n; off += 64, k++) {
+                if ((mix64(salt, k) & 0xff) >= thr)
+                        continue;
+                size_t len = std::min<size_t>(64, n - off);
+                hidden.fill(obj + off, len);
+        }
+}
+
 void Env::check_mem_all(const char *when)
 {
         bool can = false;
